@@ -233,12 +233,15 @@ pub static LAY_OPS: &[OpSpec] = &[
     OpSpec { code: lay::TRY_RESERVE, name: "try_reserve", args: &[Small(161), Choice(4), Any] },
 ];
 
+pub static SERDE_OPS: &[OpSpec] = &[OpSpec { code: 0, name: "entry", args: &[Key, Val] }];
+
 pub fn specs_for(kind: &str) -> &'static [OpSpec] {
     match kind {
         "map" => MAP_OPS,
         "table" => TABLE_OPS,
         "set" => SET_OPS,
         "lay" => LAY_OPS,
+        "serde" => SERDE_OPS,
         _ => &[],
     }
 }
